@@ -352,6 +352,9 @@ func TestC13Concurrent(t *testing.T) {
 		x := genTmpl(t)
 		if !x.hasPath && x.host != "$host" {
 			x.hasPath, x.fixed = true, ""
+			if strings.Contains(x.host, ":") && x.prefix == "" {
+				x.slash = true // "host:port$path" is not a URL
+			}
 		}
 		cfg := x.routeLine("redir")
 		tbl, err := route.NewTable(bytes.NewBufferString(cfg))
